@@ -124,6 +124,8 @@ def main(ctx: Ctx) -> None:
         "resolution_first_defined, resolution_error_codes, structured_inherit, full_precedence)",
         "compile_glob's regex = component-wise matching on dotted names (glob_correct); section names ↔ component lists (section_names_faithful)",
         "inline comments on top / later comment wins; command line over [mypy] over defaults for store-type flags",
+        "strict inside one source and across sources (strict_explicit_key_wins, strict_expands, cli_strict_over_config_key, "
+        "cli_flag_over_strict, strict_source_equiv; strict_opposites_expressible over the regenerated strict list)",
         "over the regenerated tables: cli_ini_agree, dest_settable, toml_ini_same_keys, per_module_flags_inline_ok, strict_flags_ok, "
         "list_options_typed (pre_repair_row_untyped: the row before repair 9b531e7 fails it)"]
     ctx.coverage["validated_by_correspondence"] = [
@@ -148,11 +150,13 @@ def main(ctx: Ctx) -> None:
         keys.process_correspondence(ctx)
         sources.source_equivalence(ctx, tables)
         sources.locality(ctx, tables)
+        sources.strict_overrides(ctx, tables)
         sources.precedence_pairs(ctx, tables)
         sources.parsed_sections(ctx)
         sources.section_tables(ctx)
         sources.diagnostics_equivalence(ctx, tables)
         sources.precedence_diagnostics(ctx)
+        sources.strict_diagnostics(ctx, tables)
         sources.findings_on_diagnostics(ctx)
     if not proved and not ctx.violations and not found:
         ctx.violation("Lean development for C17 no longer builds against the regenerated option table",
@@ -199,6 +203,21 @@ def replay(ctx: Ctx, path: str) -> int:
         print("documented:", det.get("documented"))
     elif kind == "process":
         print(keys.real_process(ctx, det["ini"], det["cli"], 0))
+    elif kind == "strict-override":
+        w = sources.Work(ctx, "replay")
+        o, err = w.options(det["cli"], det["config_name"], det["config_text"])
+        if det["config_name"]:
+            print("config file %s:\n%s" % (det["config_name"], det["config_text"]))
+        print("command line:", det["cli"])
+        print(f"{det['option']} = {getattr(o, det['option']) if o is not None else err}; documented (individual settings override strict; "
+              f"command line over config file): {det['documented']}")
+    elif kind == "strict-diagnostics":
+        d = os.path.join(ctx.tmp, "rp")
+        os.makedirs(d, exist_ok=True)
+        sources.write_witness(d)
+        print("--- command line", det["cli"]); print(sources.run_mypy(d, ["--config-file="] + det["cli"], ".r1"))
+        open(os.path.join(d, det["config_name"]), "w").write(det["config_text"])
+        print("---", det["config_name"], "\n" + det["config_text"]); print(sources.run_mypy(d, [], ".r2"))
     elif kind == "section-table":
         w = sources.Work(ctx, "replay")
         o, err = w.options([], det["config_name"], det["config_text"])
